@@ -375,6 +375,9 @@ def act_lines(case, r):
 def case_render(case, r) -> str:
     L = []
     actor = case.get('actor')
+    if case.get('split_home'):
+        L.append('[conf]')
+        L.append('act-home = ' + ACT_HOME_DIR)
     if actor is not None and actor['k'] != 'cli-source':
         L.append('[conf]')
         if actor['k'] == 'command':
@@ -408,10 +411,18 @@ def cli_actor_words(case, r):
 # =====================================================================================================
 # Meaning
 # =====================================================================================================
+ACT_HOME_DIR = 'ah'  # name of the act-home directory (below the home directory) of cases with `act-home = ah`
+
+
+def act_home_variant(text):
+    """Contents of the act-home copy of a home text file: recognisably another text."""
+    return 'ACT-HOME ' + text.upper()
+
+
 class Dirs:
-    def __init__(self, home, sds):
+    def __init__(self, home, sds, act_home=None):
         self.home = home
-        self.act_home = home
+        self.act_home = home if act_home is None else act_home  # [conf] act-home = DIR
         self.sds = sds
         self.act = os.path.join(sds, 'act')
         self.tmp = os.path.join(sds, 'tmp')
@@ -688,6 +699,9 @@ class Machine:
     def file_text(self, abs_path) -> str:
         if abs_path in self.files:
             return self.files[abs_path]
+        if self.d.act_home != self.d.home and os.path.dirname(abs_path) == self.d.act_home \
+                and os.path.basename(abs_path) in self.home_files:
+            return act_home_variant(self.home_files[os.path.basename(abs_path)])
         if os.path.dirname(abs_path) == self.d.home and os.path.basename(abs_path) in self.home_files:
             return self.home_files[os.path.basename(abs_path)]
         raise GeneratorBug('unknown file ' + abs_path)
